@@ -61,7 +61,16 @@ Definition decode_scalar (t : ty) (k : skind) (j : json) : dres :=
       | _ => DErr
       end
   | KFloat32 | KFloat64 =>
-      match j with JNum m e => let '(a, b) := num_norm m e in DSet (GFloat a b) | _ => DErr end
+      (* strconv.ParseFloat is the identity on decimals the width represents exactly enough to print back;
+         beyond 6 (float32) / 15 (float64) significant digits binary rounding shows: outside the model *)
+      match j with
+      | JNum m e =>
+          let '(a, b) := num_norm m e in
+          if Z.ltb (Z.abs a) (match k with KFloat32 => 1000000 | _ => 1000000000000000 end)%Z
+          then DSet (GFloat a b)
+          else DUnm "float beyond the significant digits its width prints back"
+      | _ => DErr
+      end
   | KNull | KBytes | KOther _ => DUnm "scalar kind"
   | _ =>
       match j, int_range k with
